@@ -13,22 +13,24 @@ Lemma per_id_frame S eS eR w w' eS' eR' w1 w1' i :
   vw eS' i = vw eS i -> vw eR' i = vw eR i ->
   get i (incs eS') = get i (incs eS) -> get i (wcs eS') = get i (wcs eS) ->
   get i (cls eS') = get i (cls eS) -> get i (incs eR') = get i (incs eR) ->
-  wp i w1 = wp i w -> wp i w1' = wp i w' ->
+  wp i w1 = wp i w -> has_incr i w1' = has_incr i w' -> incB i w1' = incB i w' ->
   largestIn eS <= largestIn eS' ->
   final_lg (largestIn eR) w <= final_lg (largestIn eR') w1 ->
   cfg eR' = cfg eR ->
   per_id S eS' eR' w1 w1' i.
 Proof.
-  intros [] HvS HvR H1 H2 H3 H4 Hw Hw' Hl Hf Hc.
-  unfold wp in Hw, Hw'.
+  intros [] HvS HvR H1 H2 H3 H4 Hw He' Hi' Hl Hf Hc.
+  unfold wp in Hw.
   injection Hw as Ha Hb Hc' Hd He Hf' Hg Hh Hi Hj Hk Hl'.
-  injection Hw' as Ha' Hb' Hc'' Hd' He' Hf'' Hg' Hh' Hi' Hj' Hk' Hl''.
   constructor; unfold noacc, getN;
     rewrite ?HvS, ?HvR, ?H1, ?H2, ?H3, ?H4, ?Hc,
             ?Ha, ?Hb, ?Hc', ?Hd, ?He, ?Hf', ?Hg, ?Hh, ?Hi, ?Hj, ?Hk, ?Hl', ?He', ?Hi'; try assumption.
   - intros Hm Hx. destruct (d_ks Hm Hx). split; [lia|assumption].
   - intros Hm Hx. destruct (d_kr Hm Hx). split; [lia|assumption].
 Qed.
+
+Lemma wp_incr i a b : wp i a = wp i b -> has_incr i a = has_incr i b /\ incB i a = incB i b.
+Proof. unfold wp. intros H. injection H. auto. Qed.
 
 Definition cfg_ok (c : config) : Prop := cW c <= maxU64.
 
@@ -237,16 +239,15 @@ Lemma per_id_frame2 S eS eR w w' eS' eR' w1 w1' i :
   orel sv_le (vw eS i) (vw eS' i) -> orel rv_eq (vw eR i) (vw eR' i) ->
   get i (incs eS') = get i (incs eS) -> get i (wcs eS') = get i (wcs eS) ->
   get i (cls eS') = get i (cls eS) -> get i (incs eR') = get i (incs eR) ->
-  wp i w1 = wp i w -> wp i w1' = wp i w' ->
+  wp i w1 = wp i w -> has_incr i w1' = has_incr i w' -> incB i w1' = incB i w' ->
   largestIn eS <= largestIn eS' ->
   final_lg (largestIn eR) w <= final_lg (largestIn eR') w1 ->
   cfg eR' = cfg eR ->
   per_id S eS' eR' w1 w1' i.
 Proof.
-  intros [] HS HR H1 H2 H3 H4 Hw Hw' Hl Hf Hc.
-  unfold wp in Hw, Hw'.
+  intros [] HS HR H1 H2 H3 H4 Hw He' Hi' Hl Hf Hc.
+  unfold wp in Hw.
   injection Hw as Ha Hb Hc' Hd He Hf' Hg Hh Hi Hj Hk Hl'.
-  injection Hw' as Ha' Hb' Hc'' Hd' He' Hf'' Hg' Hh' Hi' Hj' Hk' Hl''.
   destruct (vw eS i) as [a|] eqn:EA, (vw eS' i) as [b|] eqn:EB; cbn in HS; try contradiction;
   destruct (vw eR i) as [c|] eqn:EC, (vw eR' i) as [d|] eqn:ED; cbn in HR; try contradiction;
   try destruct HS as (s1 & s2 & s3 & s4 & s5 & s6 & s7);
